@@ -662,4 +662,9 @@ if __name__ == "__main__":
     sdest = os.path.join(os.path.dirname(dest), "Simple.lean")
     if not os.path.exists(sdest) or open(sdest).read() != stext:
         open(sdest, "w").write(stext); changed = True
-    print(json.dumps({"translated": done + sdone, "untranslated": failed + sfailed, "changed": changed}, indent=1))
+    import t3
+    ktext, kdone, kfailed = t3.run_kernels(root)
+    kdest = os.path.join(os.path.dirname(dest), "Kernels.lean")
+    if not os.path.exists(kdest) or open(kdest).read() != ktext:
+        open(kdest, "w").write(ktext); changed = True
+    print(json.dumps({"translated": done + sdone + kdone, "untranslated": failed + sfailed + kfailed, "changed": changed}, indent=1))
